@@ -98,7 +98,23 @@ def handoff(idx):
     calls = [c for c in walk_own(rp.node) if isinstance(c, ast.Call) and nf.callee_name(c) == 'MathExpression']
     if len(calls) != 1:
         raise AnalysisError('raw_parse: expected one MathExpression(...) construction, found %d' % len(calls))
-    mapping = map_args(init, calls[0])
+    ctor = calls[0]
+    if any(isinstance(a, ast.Starred) for a in ctor.args):
+        # MathExpression(expression, tree, *used): expand a starred tuple whose elements are known
+        flat = []
+        for a in ctor.args:
+            if isinstance(a, ast.Starred):
+                v = lib.inline_locals(a.value, rp.node)
+                if not isinstance(v, (ast.Tuple, ast.List)):
+                    raise AnalysisError('raw_parse: starred argument `%s` of MathExpression(...) is not a known tuple' % short(a))
+                flat.extend(v.elts)
+            else:
+                flat.append(a)
+        ctor = ast.Call(func=ctor.func, args=flat, keywords=ctor.keywords)
+        ast.copy_location(ctor, calls[0])
+    if any(k.arg is None for k in ctor.keywords):
+        raise AnalysisError('raw_parse: MathExpression(...) is called with **kwargs')
+    mapping = map_args(init, ctor)
     me = rp.params[0]
     out = {}
     copied = {}
@@ -298,6 +314,19 @@ def d2_reset(ctx, idx, st):
         through = [n for c in resets for n in lib.cfg_nodes_for(cfg, c)] + manager_nodes
         for exits, what in (('raise', 'an exceptional'), ('return', 'a normal')):
             ok = cfg.must_pass(starts, through, exits=exits, after=True)
+            if not ok and exits == 'raise':
+                verdict = _callers_reset_on_failure(idx, rp)
+                if verdict is True:
+                    r.ok('raw_parse: reset on exceptional exit', 'done by every caller for every exception that leaves raw_parse', rp.loc)
+                    continue
+                if verdict:
+                    fi_c, text = verdict
+                    r.violation('raw_parse: reset on exceptional exit', 'raw_parse itself resets the scratch sets only on its normal exit, and its '
+                                'caller %s %s: an exception of any other kind raised while parsing (RecursionError on deeply nested '
+                                'input, a fatal pyparsing error, an error in a parse action) leaves the names recorded so far in the '
+                                'shared parser, and they are reported for the next formula that is parsed' % (fi_c.name, text),
+                                lib.loc(fi_c), expected='reset in a finally / for every exception', found=text)
+                    continue
             detail = ''
             if not ok:
                 path = cfg.witness_path(starts, through, cfg.exits(exits), after=True)
@@ -310,6 +339,42 @@ def d2_reset(ctx, idx, st):
             for s in t.finalbody:
                 if any(isinstance(n, (ast.Return, ast.Break, ast.Continue)) for n in ast.walk(s)):
                     r.violation('raw_parse: finally', 'a return inside finally swallows parse errors', lib.loc(rp, s))
+
+
+def _callers_reset_on_failure(idx, rp):
+    """True if every caller of raw_parse passes reset_storage on every exceptional path out of the call; (caller, text) if a
+    caller resets only in handlers for some exception classes; None if nothing of the kind was found."""
+    callers = []
+    for f in idx.package_funcs():
+        for c in walk_own(f.node):
+            if isinstance(c, ast.Call) and nf.callee_name(c) == 'raw_parse' and f.qualname != rp.qualname:
+                targets, how = idx.resolve_call(f, c)
+                if any(not isinstance(t, tuple) and t.qualname == rp.qualname for t in targets):
+                    callers.append((f, c))
+    if not callers:
+        return None
+    partial = None
+    for f, c in callers:
+        cfg = cfg_of(f.node)
+        resets = [n for x in lib.calls_named(f.node, 'reset_storage') for n in lib.cfg_nodes_for(cfg, x)]
+        if not resets:
+            return None
+        exc = [t for s_ in lib.cfg_nodes_for(cfg, c) for t, lab in s_.succs if lab == 'exc']
+        if not exc:
+            return None
+        if cfg.must_pass(exc, resets, exits='raise', after=False) and cfg.must_pass(exc, resets, exits='return', after=False):
+            continue
+        tr = lib.enclosing_try(c)
+        classes = []
+        if tr is not None:
+            for h in tr.handlers:
+                if any(isinstance(n, ast.Call) and nf.callee_name(n) == 'reset_storage' for s_ in h.body for n in ast.walk(s_)):
+                    classes.extend(lib.handler_class_names(h))
+        if classes and not (set(classes) & {'Exception', 'BaseException'}):
+            partial = (f, 'resets them only in its handler for %s' % '/'.join(classes))
+        else:
+            return None
+    return partial or True
 
 
 def _manager_resets(idx, rp, ce):
@@ -828,6 +893,40 @@ def _self_state_writes(fn, me):
     return out
 
 
+def _state_passed_to_mutators(idx, ms, fi, me, init_only_closures=False):
+    """Calls in a method (nested lambdas/defs included) that hand `self.<attr>` (or something reached from it) to a resolved
+    callee that mutates the corresponding parameter.  In __init__ only calls inside nested lambdas/defs count (they run later)."""
+    out = []
+
+    def attr_of(e):
+        cur = e
+        while isinstance(cur, (ast.Subscript, ast.Attribute)):
+            if isinstance(cur, ast.Attribute) and isinstance(cur.value, ast.Name) and cur.value.id == me:
+                return cur.attr
+            cur = cur.value
+        return None
+
+    def visit(node, nested):
+        for child in ast.iter_child_nodes(node):
+            inner = nested or isinstance(child, (ast.Lambda, ast.FunctionDef))
+            if isinstance(child, ast.Call) and (nested or not init_only_closures):
+                hot = [(a, attr_of(a)) for a in list(child.args) + [k.value for k in child.keywords]]
+                hot = [(a, f) for a, f in hot if f is not None]
+                if hot:
+                    targets, how = idx.resolve_call(fi, child)
+                    for t in targets:
+                        if isinstance(t, tuple):
+                            continue
+                        summ = ms.mutated_params(t)
+                        for pname, arg in map_args(t, child).items():
+                            for a, f in hot:
+                                if arg is a and pname in summ:
+                                    out.append((child, a, f, t, pname))
+            visit(child, inner)
+    visit(fi.node, False)
+    return out
+
+
 def d5_consumers(ctx, idx, st):
     r = ctx.rule('D5.WMW', 'no site of the package mutates the usage sets or the tree of a (cached) expression', floor=14)
     with r:
@@ -857,6 +956,18 @@ def d5_consumers(ctx, idx, st):
                             'there by one parse/evaluation is seen by every later evaluation of the same formula (its outcome then '
                             'depends on history, e.g. on the scope of an earlier call)' % (short(n), how), lib.loc(fi, n),
                             expected='no store into self.<field> outside __init__', found=short(n))
+        ms0 = MutationSummaries(idx)
+        for name, fi in sorted(ci.methods.items()):
+            if not fi.params or fi.is_static:
+                continue
+            me = fi.params[0]
+            for call, arg, attr, callee, pname in _state_passed_to_mutators(idx, ms0, fi, me, init_only_closures=(name == '__init__')):
+                r.violation('MathExpression.%s: self.%s handed to %s' % (name, attr, callee.name), '`%s` passes `%s` -- an object hanging off '
+                            'the expression -- to %s, which mutates its parameter `%s`. The expression lives in the process-wide parser '
+                            'cache, so what one evaluation writes there (e.g. the maximal array dimension met) is still there in the next '
+                            'evaluation of the same formula, possibly with another scope: per-evaluation state must be a fresh object '
+                            'created in eval()' % (short(call), short(arg), callee.qualname.split('.')[-1], pname), lib.loc(fi, call),
+                            expected='a fresh local object per evaluation', found=short(arg))
         r.ok('MathExpression: field writes', 'only in __init__ (%s)' % ', '.join(sorted(fields)), init.loc)
         # stores to .X_used anywhere else
         for fi in idx.package_funcs():
@@ -981,6 +1092,10 @@ def d6_determinism(ctx, idx, st):
             else:
                 r.undecided(construct, 'FIRST(body) and FOLLOW overlap on %s: an iteration abandoned after recording may be followed '
                             'by success' % G.show_chars(common), gloc(g, t))
+        # (v) the em-dash is admitted wherever '-' is: otherwise the other dash ends the numeral early and what follows is recorded
+        #     as a suffix that is not in the formula
+        C03.emdash_parity(r, g, 'with the em-dash the numeral ends before the exponent, so `2e\u20143` records a suffix `e` that a '
+                                'reader of the formula (2e-3) does not see: a spurious suffix in the reported usage')
         # (iv) nothing records inside a Combine
         for t in g.nodes():
             if t.kind != 'combine':
@@ -1162,6 +1277,7 @@ MH = 'mitxgraders/helpers/math_helpers.py'
 SAMPLING = 'mitxgraders/sampling.py'
 INTEGRAL = 'mitxgraders/formulagrader/integralgrader.py'
 _PRODUCT = "product = parallel + ZeroOrMore((Literal('*') | Literal('/'))(\"op\") + parallel)"
+_RAW_OLD = "        try:\n            BracketValidator.validate(expression)\n            tree = self.grammar.parseString(expression)[0]\n            parsed = MathExpression(expression,\n                                    tree,\n                                    self.variables_used,\n                                    self.functions_used,\n                                    self.suffixes_used)\n"
 _FINALLY = "        except:\n            raise\n        finally:\n            self.reset_storage()\n\n        return parsed"
 
 MUTANTS = [
@@ -1172,8 +1288,6 @@ MUTANTS = [
            "variable.setParseAction(self.function_parse_action)", 'D1'),
     Mutant('function-action-on-the-shared-name', EXPR, "        # Define a variable as a pyparsing result that contains one object name\n",
            "        name.setParseAction(self.function_parse_action)\n", 'D1'),
-    Mutant('function-action-attached-after-copy', EXPR, "function.setParseAction(self.function_parse_action)",
-           "name.setParseAction(self.function_parse_action)", 'D1'),
     Mutant('suffix-action-dropped', EXPR, "        suffix.setParseAction(self.suffix_parse_action)\n", "", 'D1'),
     Mutant('sets-swapped-at-construction', EXPR, "                                    self.variables_used,\n                                    self.functions_used,",
            "                                    self.functions_used,\n                                    self.variables_used,", 'D1'),
@@ -1181,12 +1295,17 @@ MUTANTS = [
            "        self.variables_used = functions_used\n        self.functions_used = variables_used", 'D1'),
     # D2
     Mutant('reset-moved-out-of-finally', EXPR, _FINALLY, "        except:\n            raise\n\n        self.reset_storage()\n        return parsed", 'D2'),
-    Mutant('reset-only-on-failure', EXPR, _FINALLY, "        except:\n            self.reset_storage()\n            raise\n\n        return parsed", 'D2'),
     Mutant('reset-dropped', EXPR, _FINALLY, "        except:\n            raise\n\n        return parsed", 'D2'),
     Mutant('reset-behind-narrow-handler', EXPR, _FINALLY,
            "        except ParseException:\n            BracketValidator.validate(expression)\n            self.reset_storage()\n            raise\n\n"
            "        self.reset_storage()\n        return parsed", 'D2',
            note='seeded: only ParseException is handled and validate() runs before the reset'),
+    Mutant('reset-on-success-and-in-the-parse-exception-handler-only', EXPR, [
+        (_RAW_OLD + _FINALLY, "        BracketValidator.validate(expression)\n        tree = self.grammar.parseString(expression)[0]\n"
+         "        used = (self.variables_used, self.functions_used, self.suffixes_used)\n        self.reset_storage()\n"
+         "        return MathExpression(expression, tree, *used)"),
+        ("        except ParseException:\n            msg =", "        except ParseException:\n            self.reset_storage()\n            msg ="),
+    ], None, 'D2', note='seeded C11i: a RecursionError while parsing leaves the recorded names in the shared parser'),
     # D3
     Mutant('clear-instead-of-fresh-set', EXPR, "    def reset_storage(self):\n        self.variables_used = set()", "    def reset_storage(self):\n        self.variables_used.clear()", 'D3'),
     Mutant('reset-forgets-suffixes', EXPR, "        self.functions_used = set()\n        self.suffixes_used = set()\n\n    def variable_parse_action",
@@ -1211,8 +1330,6 @@ MUTANTS = [
            "            deps = parsed.variables_used\n            deps.discard('pi')\n            self.config['depends'] = list(deps)", 'D5'),
     Mutant('integral-unions-in-place', INTEGRAL, "used_funcs = lower_used.functions_used.union(upper_used.functions_used, expression_used.functions_used)",
            "used_funcs = expression_used.functions_used\n        used_funcs |= lower_used.functions_used\n        used_funcs |= upper_used.functions_used", 'D5'),
-    Mutant('eval-prunes-suffixes', EXPR, "        # metadata_dict['max_array_dim_used'] is updated by eval_array\n",
-           "        self.suffixes_used.discard('%')\n", 'D5'),
     Mutant('number-literal-memoised-on-the-expression', EXPR,
            "        actions = {\n            'number': lambda parse_result: self.eval_number(parse_result, suffixes),",
            "        if not hasattr(self, 'number_values'):\n            self.number_values = {}\n\n"
@@ -1222,7 +1339,16 @@ MUTANTS = [
            "            return self.number_values[literal]\n\n"
            "        actions = {\n            'number': number_value,", 'D5',
            note='seeded C03c: the memo key ignores the suffix table of the call; 2k evaluated with k=1000 then k=1024 still gives 2000'),
+    Mutant('per-evaluation-metadata-moved-to-the-expression', EXPR, [
+        ("        self.tree = tree\n", "        self.tree = tree\n        self.metadata_dict = {'max_array_dim_used': 0}\n"),
+        ("        metadata_dict = {'max_array_dim_used': 0}\n", ""),
+        ("self.eval_array(parse_result, metadata_dict)", "self.eval_array(parse_result, self.metadata_dict)"),
+        ("max_array_dim_used=metadata_dict['max_array_dim_used'])", "max_array_dim_used=self.metadata_dict['max_array_dim_used'])"),
+    ], None, 'D5', note='seeded C10i/C11j: the maximal array dimension survives from one evaluation of a cached expression to the next'),
     # D6
+    Mutant('exponent-sign-loses-the-em-dash', EXPR, "Optional(CaselessLiteral(\"E\") + Optional(plus_minus) + number_part)",
+           "Optional(CaselessLiteral(\"E\") + Optional(Literal(\"+\") | Literal(\"-\")) + number_part)", 'D6',
+           note='seeded C10j: 2e\u20143 records a spurious suffix e'),
     Mutant('implicit-multiplication-before-parentheses', EXPR, _PRODUCT,
            "product = parallel + ZeroOrMore(((Literal('*') | Literal('/'))(\"op\") + parallel) | parentheses)", 'D6'),
     Mutant('operator-made-optional', EXPR, _PRODUCT,
@@ -1277,6 +1403,20 @@ BENIGN = [
            "    def raw_parse(self, expression):\n        with MathParser._Scratch(self):\n            BracketValidator.validate(expression)\n"
            "            tree = self.grammar.parseString(expression)[0]\n"
            "            return MathExpression(expression, tree, self.variables_used, self.functions_used, self.suffixes_used)"),
+    Benign('metadata-template-copied-per-evaluation', EXPR, [
+        ("        self.tree = tree\n", "        self.tree = tree\n        self.metadata_template = {'max_array_dim_used': 0}\n"),
+        ("        metadata_dict = {'max_array_dim_used': 0}\n", "        metadata_dict = dict(self.metadata_template)\n"),
+    ], None),
+    Benign('caller-resets-for-every-exception', EXPR, [
+        (_RAW_OLD + _FINALLY, "        BracketValidator.validate(expression)\n        tree = self.grammar.parseString(expression)[0]\n"
+         "        used = (self.variables_used, self.functions_used, self.suffixes_used)\n        self.reset_storage()\n"
+         "        return MathExpression(expression, tree, *used)"),
+        ("        except ParseException:\n            msg = \"Invalid Input: Could not parse '{}' as a formula\"\n            raise UnableToParse(msg.format(expression))\n",
+         "        except ParseException:\n            self.reset_storage()\n            msg = \"Invalid Input: Could not parse '{}' as a formula\"\n"
+         "            raise UnableToParse(msg.format(expression))\n        except BaseException:\n            self.reset_storage()\n            raise\n"),
+    ], None),
+    Benign('exponent-sign-rebuilt-from-the-same-pieces', EXPR, "Optional(CaselessLiteral(\"E\") + Optional(plus_minus) + number_part)",
+           "Optional(CaselessLiteral(\"E\") + Optional(plus | minus) + number_part)"),
     Benign('cache-store-removed', EXPR, "        self.cache[cache_key] = parsed\n        return parsed", "        return parsed"),
     Benign('grammar-signs-by-tuple-assignment', EXPR, "        minus = Literal(\"-\") | emdash\n", "        minus, dash = (Literal(\"-\") | emdash, emdash)\n"),
 ]
